@@ -36,8 +36,15 @@ def r1(ctx):
     cfg = CFG(loop.body, exceptions=False)
 
     def step(state, node, label):
-        ev = state
+        ev = tuple(x for x in state if x[0] != '<taint>')
+        tainted = {x[1] for x in state if x[0] == '<taint>'}
         new = []
+        # locals bound (on this path) to a value built from the contig stand for the contig: `task = (contig, None, ...)`
+        if node.kind == 'stmt' and isinstance(node.ast, ast.Assign) and len(node.ast.targets) == 1 and isinstance(node.ast.targets[0], ast.Name) and node.ast.targets[0].id != cv:
+            if mentions(node.ast.value, cv) or (names_in(node.ast.value) & tainted):
+                tainted = tainted | {node.ast.targets[0].id}
+            else:
+                tainted = tainted - {node.ast.targets[0].id}
         if node.kind == 'test' and label in ('true',) and isinstance(node.ast.test, ast.Compare) and len(node.ast.test.ops) == 1:
             t = node.ast.test
             if isinstance(t.ops[0], ast.Eq) and {src(t.left), src(t.comparators[0])} == {cv, "'*'"}:
@@ -49,14 +56,14 @@ def r1(ctx):
         for c in node_calls(node):
             if isinstance(c.func, ast.Attribute) and c.func.attr == 'append' and c.args:
                 a = c.args[0]
-                if mentions(a, cv):
+                if mentions(a, cv) or (names_in(a) & tainted):
                     new.append(('consume', src(c.func.value)))
                 elif isinstance(a, ast.Name):
                     new.append(('flush', a.id))
         if node.kind == 'stmt' and isinstance(node.ast, ast.Assign) and isinstance(node.ast.targets[0], ast.Name) \
                 and isinstance(node.ast.value, ast.List) and not node.ast.value.elts:
             new.append(('reset', node.ast.targets[0].id))
-        return ev + tuple(new)
+        return ev + tuple(new) + tuple(('<taint>', t_) for t_ in sorted(tainted))
 
     paths = cfg.paths(state0=(), step=step)
     ctx.counters['paths_enumerated'] += len(paths)
@@ -65,6 +72,7 @@ def r1(ctx):
     for p, ev in paths:
         if cfg.nodes[p[-1][0]].info not in ('fall', 'continue'):
             continue
+        ev = tuple(x for x in ev if x[0] != '<taint>')
         cons = [x for k, x in ev if k == 'consume']
         sent = any(k == 'is-unmapped-sentinel' for k, x in ev)
         sinks.update(cons)
@@ -153,7 +161,10 @@ def r2(ctx):
     cv = tgt.elts[0].id if isinstance(tgt, ast.Tuple) else tgt.id
     # with contig == '*' no feasible path of the loop body queues the contig (however the exclusion is written: continue guard, `pass` arm of an
     # if/elif chain, or `!=` around every consumption)
-    appends = {src(c) for c in walk_no_nested(loop) if isinstance(c, ast.Call) and isinstance(c.func, ast.Attribute) and c.func.attr == 'append' and c.args and mentions(c.args[0], cv)}
+    carriers = {s_.targets[0].id for s_ in walk_no_nested(loop) if isinstance(s_, ast.Assign) and len(s_.targets) == 1 and isinstance(s_.targets[0], ast.Name)
+                and s_.targets[0].id != cv and mentions(s_.value, cv)}      # locals built from the contig (`task = (contig, None, ...)`)
+    appends = {src(c) for c in walk_no_nested(loop) if isinstance(c, ast.Call) and isinstance(c.func, ast.Attribute) and c.func.attr == 'append' and c.args
+               and (mentions(c.args[0], cv) or (names_in(c.args[0]) & carriers))}
     rs = explore(loop.body, mk_atoms({f"{cv} == '*'": True}))
     queued = [r for r in rs if any(c in appends for c in r['calls'])]
     ok = bool(appends) and bool(rs) and not queued
@@ -376,10 +387,12 @@ def r7(ctx):
     mg = [c for c in walk_no_nested(f) if isinstance(c, ast.Call) and last_name(dotted(c.func) or '') == 'merge_bams']
     # merge input: the header-only BAM written by this function plus the list every job BAM was appended to (as one expression or through a local)
     marg = mg[0].args[0] if len(mg) == 1 and mg[0].args else None
+    via = set()       # the locals the merge input is read through: a list that is appended to contributes its appended elements
     for _hop in range(3):
         if isinstance(marg, ast.Call) and dotted(marg.func) in ('list', 'tuple', 'sorted') and len(marg.args) == 1:
             marg = marg.args[0]
         if isinstance(marg, ast.Name):
+            via.add(marg.id)
             dd = [s_.value for s_ in walk_no_nested(f) if isinstance(s_, ast.Assign) and len(s_.targets) == 1 and src(s_.targets[0]) == marg.id]
             if not dd:
                 break
@@ -388,7 +401,7 @@ def r7(ctx):
                 and isinstance(c.func.value, ast.Name)}
     hdr = {src(c.args[0]) for c in walk_no_nested(f) if isinstance(c, ast.Call) and last_name(dotted(c.func) or '') == 'AlignmentFile' and len(c.args) >= 2
            and isinstance(c.args[1], ast.Constant) and 'w' in str(c.args[1].value)}
-    ok = marg is not None and bool(names_in(marg) & applists) and bool(names_in(marg) & hdr)
+    ok = marg is not None and bool((names_in(marg) | via) & applists) and bool(names_in(marg) & hdr)
     ctx.emit('C05-R7', ok, BTM, mg[0] if mg else f, f'merge input = {src(marg) if marg is not None else None} (header BAM {sorted(hdr)} + every job BAM {sorted(applists)})', key='merge-input')
     # task fields
     gt = ctx.fn(TAGGING, 'generate_tasks')
